@@ -469,12 +469,26 @@ pub fn t_retain(rng: &mut Rng, profile: &'static str, run_seed: u64, miri: bool)
 /// queued behind it. The drop has to wait for all of it; the value goes away exactly once, afterwards.
 pub fn t_drop_held_future(rng: &mut Rng, profile: &'static str, run_seed: u64, miri: bool) -> Program {
     let mut prog = Program::new(run_seed, profile, "last_owner_dropped_while_held_future_is_suspended");
-    prog.pool = *rng.pick(&[1usize, 1, 2, 3]);
+    // half of the time every pool thread is kept inside a blocked body on another object while all this happens: the drop then waits
+    // like any sync caller does and has to take the queue over itself when it is released
+    let saturated = rng.chance(1, 2);
+    prog.pool = if saturated { rng.range(1, 2) as usize } else { *rng.pick(&[1usize, 1, 2, 3]) };
     prog.pool_mode = *rng.pick(&[PoolMode::Warm, PoolMode::Fresh]);
-    prog.n_obj = if prog.pool > 1 && rng.chance(1, 2) { 2 } else { 1 };
     prog.mortal = Some(0);
+    let mut wait_saturated = vec![];
+    if saturated {
+        prog.n_obj = 1 + prog.pool;
+        prog.hold_phase = true;
+        prog.held_objs = (1..=prog.pool).collect();
+        let mut holder = vec![];
+        for o in 1..=prog.pool { let h = prog.new_hold(); let id = prog.add_op(o, Kind::Desync, Disp::None, vec![Step::Touch, Step::Hold(h)]); holder.push(TAct::Op(id)); wait_saturated.push(TAct::WaitStart(id)); }
+        prog.threads.push(holder);
+        prog.hold_wait_threads = Some(vec![1, 2]);
+    } else {
+        prog.n_obj = if prog.pool > 1 && rng.chance(1, 2) { 2 } else { 1 };
+    }
     let g = prog.new_gate();
-    let mut a = vec![];
+    let mut a = wait_saturated.clone();
     for _ in 0..rng.below(2) { let id = prog.add_op(0, Kind::Desync, Disp::None, vec![Step::Touch]); a.push(TAct::Op(id)); }
     let mut body = vec![Step::Touch, Step::Gate(g), Step::Touch];
     if rng.chance(1, 4) { body.push(Step::Retain); }
@@ -483,15 +497,15 @@ pub fn t_drop_held_future(rng: &mut Rng, profile: &'static str, run_seed: u64, m
     for _ in 0..rng.range(1, if miri { 1 } else { 3 }) { let id = prog.add_op(0, Kind::Desync, Disp::None, vec![Step::Touch, Step::Touch]); a.push(TAct::Op(id)); }
     // the owner goes first; the future is awaited (or abandoned) afterwards
     a.push(TAct::ReleaseMortal);
-    a.push(if rng.chance(3, 4) { TAct::Join(fd) } else { TAct::DropHeld(fd) });
+    a.push(if saturated || rng.chance(3, 4) { TAct::Join(fd) } else { TAct::DropHeld(fd) });
     prog.threads.push(a);
     // a second owner, released at some point while all that is going on
-    let mut b = vec![];
+    let mut b = wait_saturated;
     if rng.chance(1, 2) { let id = prog.add_op(0, Kind::Desync, Disp::None, vec![Step::Touch]); b.push(TAct::Op(id)); }
     b.push(TAct::ReleaseMortal);
     prog.threads.push(b);
     // sometimes the pool is busy elsewhere for a moment
-    if prog.n_obj == 2 { let id = prog.add_op(1, Kind::Desync, Disp::None, vec![Step::Touch, Step::Pause, Step::Touch]); prog.threads.push(vec![TAct::Op(id)]); }
+    if !saturated && prog.n_obj == 2 { let id = prog.add_op(1, Kind::Desync, Disp::None, vec![Step::Touch, Step::Pause, Step::Touch]); prog.threads.push(vec![TAct::Op(id)]); }
     finish_firer(rng, &mut prog, 0);
     prog
 }
